@@ -133,9 +133,15 @@ static JsonPatchOp *mk_op(const string &s) {
   return new JsonPatchTestOp(JsonPointer(S(f[1])), build_s(f[2]));
 }
 
+// Lexing/parsing/writing a text of at most 64 KiB takes milliseconds; a short watchdog turns any
+// work that is not proportional to the input (e.g. a loop over a number's exponent VALUE inside
+// JsonDouble, which the model keeps opaque) into crash=HANG quickly.
+static const unsigned kParseWatchdogSeconds = 4;
+
 static string handle(const string &p) {
   vector<string> a = vh::split(p);
   const string &op = a[0];
+  if (op == "parse" || op == "deep" || op == "tree") alarm(kParseWatchdogSeconds);
   if (op == "ptr") {                      // pointer from its string form
     JsonPointer ptr(S(a[1]));
     if (!ptr.IsValid()) return "valid=0";
